@@ -1725,4 +1725,78 @@ Section Sound.
       destruct s; cbn [rep_len] in Hm; try discriminate. splitb. cbn [map strip_unknown]. do 2 f_equal. apply map_id_ext. intros x Hx.
       match goal with Hf : forallb _ l = true |- _ => eapply forallb_forall in Hf; [|exact Hx]; destruct x; try discriminate end. reflexivity.
   Qed.
+
+  (* ---- the description, for a value whose encoding fits a Go slice, implies the range ---- *)
+  Lemma slots_deep_intro (rec : rec_t) r p : forall fs fas ss, length fas = length fs -> length ss = length fs ->
+    (forall i f fa s, nth_error fs i = Some f -> nth_error fas i = Some fa -> nth_error ss i = Some s -> slot_deep R rec r p f fa s = true) ->
+    slots_deep R rec r p fs fas ss = true.
+  Proof.
+    induction fs as [|f fs IH]; intros [|fa fas] [|s ss]; cbn [length slots_deep]; try lia; auto.
+    intros L1 L2 H. apply andb_true_iff. split; [apply (H 0%nat); reflexivity|]. apply IH; try lia.
+    intros i f' fa' s' A B C. apply (H (S i)); assumption.
+  Qed.
+
+  Lemma find_idx_nil_url : forall (l : annots) i, find_idx (fun ma => beqb [] (url_of ma)) l i = None.
+  Proof. induction l as [|ma l IH]; intros i; cbn [find_idx]; [reflexivity|]. cbn [beqb url_of]. apply IH. Qed.
+  Lemma resolve_nil : resolve ann [] = None.
+  Proof. unfold resolve. apply find_idx_nil_url. Qed.
+
+  Lemma Forall_forallb' {A} (P : A -> Prop) (g : A -> bool) l : (forall x, In x l -> P x -> g x = true) -> Forall P l -> forallb g l = true.
+  Proof. intros H HF. apply forallb_forall. intros x Hx. rewrite Forall_forall in HF. apply H; auto. Qed.
+
+  Lemma sdeep_range : forall r p ic mid v, (r <= 100)%nat -> SD r p ic mid v -> small mid v -> deep sch ann R r p ic mid v = true.
+  Proof.
+    induction r as [|r IH]; intros p ic mid v Hr; cbn [sdeep deep]; [contradiction|].
+    destruct (get_msg sch mid) as [md|] eqn:Hg; [|contradiction]. destruct (nth_error ann mid) as [ma|] eqn:Ha; [|contradiction].
+    destruct v; try contradiction. destruct (ann_ok_nth _ _ _ _ _ Hann Hg Ha) as [Hlay Hlen].
+    cbn [p_msg range_preds].
+    destruct (a_wkt ma) eqn:Ew; cbn [wkt_layout] in Hlay.
+    - (* ordinary message *)
+      intros [Hm Hs] Hsm. apply andb_true_iff. split; [exact Hm|].
+      destruct (sslots_nth _ _ _ _ _ _ Hs) as (L1 & L2 & Hn). apply slots_deep_intro; [exact L1|exact L2|].
+      intros i f fa s Hf Hfa Hsl. destruct (Hn i f fa s Hf Hfa Hsl) as [Hrg Htr].
+      assert (Hchild : forall pp x tm, f_ty f = TMsg tm -> In x (RoundTrip.elems_of f s) -> x <> VNil ->
+                SD r pp (IField (a_iface fa)) tm x -> deep sch ann R r pp (IField (a_iface fa)) tm x = true).
+      { intros pp x tm Ht Hx _ Hsd. apply IH; [lia|exact Hsd|]. eapply small_child; eauto. }
+      unfold slot_deep. cbn [p_slot p_scalar range_preds]. apply andb_true_iff. split; [exact Hrg|].
+      unfold selem, elem_deep in *. unfold RoundTrip.elems_of in Hchild.
+      destruct (f_shape f) as [|packed|oi|kk] eqn:Es.
+      + destruct (f_ty f) as [k|tm] eqn:Et; [exact Htr|]. destruct s; try exact I; try reflexivity;
+          (apply (Hchild p _ tm eq_refl); [left; reflexivity|discriminate|exact Htr]).
+      + destruct s; try reflexivity. destruct (f_ty f) as [k|tm] eqn:Et.
+        * apply Forall_forallb. exact Htr.
+        * destruct (2 <=? r)%nat; [|reflexivity]. eapply Forall_forallb'; [|exact Htr]. intros x Hx Hsx.
+          destruct x; try reflexivity; (apply (Hchild 1 _ tm eq_refl); [exact Hx|discriminate|exact Hsx]).
+      + destruct s; try reflexivity. destruct (f_ty f) as [k|tm] eqn:Et; [exact Htr|].
+        destruct s; try reflexivity; (apply (Hchild p _ tm eq_refl); [left; reflexivity|discriminate|exact Htr]).
+      + destruct s; try reflexivity. eapply Forall_forallb'; [|exact Htr]. intros [a b] Hx [Hk Hv]. cbn [fst snd] in *.
+        apply andb_true_iff. split; [exact Hk|]. destruct (f_ty f) as [k|tm] eqn:Et; [exact Hv|].
+        destruct b; try reflexivity; (apply (Hchild (10 * p) _ tm eq_refl); [apply in_map_iff; eexists; split; [|exact Hx]; reflexivity|discriminate|exact Hv]).
+    - intros H _. rewrite H. reflexivity.
+    - intros H _. rewrite H. reflexivity.
+    - (* Any *)
+      apply fields_eqb_eq in Hlay.
+      intros (-> & u & vb & -> & Hvb & Hrest) Hsm. unfold rg_msg. rewrite Ew. cbn [is_nilb andb any_deep].
+      destruct (has_urls o) eqn:Hu.
+      + destruct Hrest as (tm & mat & Hmat & -> & Hres & Hal & Hpay). rewrite Hres, Hal. cbn [andb].
+        destruct (2 <=? r)%nat eqn:E2.
+        * destruct Hpay as (pv & bs & Hpv & Hmar & ->). cbn [as_bytes].
+          pose proof (any_value_small mid md _ bs Hg Hlay Hsm) as Hbs.
+          pose proof (marshal_len _ _ _ Hmar) as Hle.
+          assert (Hspv : small tm pv) by (unfold small; lia).
+          pose proof (IH 1 INoField tm pv ltac:(lia) Hpv Hspv) as Dpv.
+          assert (Ebs : bs = emit sch false tm pv).
+          { rewrite CodecSize.marshal_ok in Hmar; [congruence|exact Hwf|]. unfold small, two63 in Hspv. unfold two64. lia. }
+          apply Nat.leb_le in E2.
+          assert (Hrt : pulsar_unmarshal sch false tm VNil bs = Ok (norm sch tm pv)).
+          { rewrite Ebs. apply RoundTrip.roundtrip_nondet; [exact Hwf| | | |exact Hspv].
+            - eapply range_wt; eauto.
+            - eapply range_strip; eauto.
+            - pose proof (range_depth vr o sch ann Hfty r 1 INoField tm pv E2 Dpv). lia. }
+          rewrite Hrt. cbn [is_ok andb]. apply range_norm. exact Dpv.
+        * destruct Hvb as [->|[b ->]]; rewrite Hpay; reflexivity.
+      + destruct Hrest as [-> Hbe]. rewrite resolve_nil, Hbe.
+        destruct Hvb as [->|[b ->]]; reflexivity.
+    - intros H _. rewrite H. reflexivity.
+  Qed.
 End Sound.
